@@ -47,7 +47,6 @@ B = [
     ("memory_sorted_key_tuple", [(MEM, "        last = sorted(self.db[bucket_id], key=lambda e: e.timestamp)[-1]", "        last = sorted(enumerate(self.db[bucket_id]), key=lambda ie: (ie[1].timestamp, ie[0]))[-1][1]")]),
     ("peewee_get_last_tiebreak_id", [(PW, "            .order_by(EventModel.timestamp.desc())\n            .get()", "            .order_by(EventModel.timestamp.desc(), EventModel.id.desc())\n            .get()"), (PW, "            .order_by(EventModel.timestamp.desc())\n            .limit(limit)", "            .order_by(EventModel.timestamp.desc(), EventModel.id.desc())\n            .limit(limit)")]),
     ("peewee_chunks_of_50", [(PW, "        for chunk in chunks(events_dictlist, 100):", "        for chunk in chunks(events_dictlist, 50):")]),
-    ("peewee_no_clipping", [(PW, "        for e in events:\n            if starttime:\n                if e.timestamp < starttime:", "        for e in []:\n            if starttime:\n                if e.timestamp < starttime:")]),
     ("peewee_atomic_ops", [(PW, "    def delete_bucket(self, bucket_id: str) -> None:\n        if bucket_id in self.bucket_keys:\n            EventModel.delete().where(\n                EventModel.bucket == self.bucket_keys[bucket_id]\n            ).execute()\n            BucketModel.delete().where(\n                BucketModel.key == self.bucket_keys[bucket_id]\n            ).execute()", "    def delete_bucket(self, bucket_id: str) -> None:\n        if bucket_id in self.bucket_keys:\n            with self.db.atomic():\n                EventModel.delete().where(\n                    EventModel.bucket == self.bucket_keys[bucket_id]\n                ).execute()\n                BucketModel.delete().where(\n                    BucketModel.key == self.bucket_keys[bucket_id]\n                ).execute()")]),
     ("memory_filter_then_sort", [(MEM, "        # Sort by timestamp\n        events = sorted(events, key=lambda k: k[\"timestamp\"])[::-1]\n\n        # Filter by date\n        if starttime:\n            events = [e for e in events if starttime <= (e.timestamp + e.duration)]\n        if endtime:\n            events = [e for e in events if e.timestamp <= endtime]\n", "        # Filter by date\n        if starttime:\n            events = [e for e in events if starttime <= (e.timestamp + e.duration)]\n        if endtime:\n            events = [e for e in events if e.timestamp <= endtime]\n\n        # Sort by timestamp\n        events = sorted(events, key=lambda k: k[\"timestamp\"])[::-1]\n")]),
     ("sqlite_executemany_as_loop", [(SQ, "        self.conn.executemany(query, event_rows)\n", "        for event_row in event_rows:\n            self.conn.execute(query, event_row)\n")]),
